@@ -12,6 +12,7 @@ import (
 	"fmt"
 	"os"
 	"sync"
+	"sync/atomic"
 	"time"
 
 	bigbuff "github.com/joeycumines/go-bigbuff"
@@ -35,6 +36,8 @@ func short() (context.Context, context.CancelFunc) {
 	return context.WithTimeout(context.Background(), 200*time.Microsecond)
 }
 
+var freshKey atomic.Int64
+
 var subjects = []subject{
 	{"Buffer", func() ([]op, func()) {
 		b := new(bigbuff.Buffer)
@@ -43,6 +46,14 @@ var subjects = []subject{
 		c2, _ := b.NewConsumer()
 		return []op{
 			{"Put", func(r *rng.R) { b.Put(bg(), r.Intn(9), r.Intn(9)) }},
+			// the caller keeps using (overwrites) the slice it spread into Put: Put must have copied the values
+			{"PutSpreadThenOverwrite", func(r *rng.R) {
+				batch := []interface{}{r.Intn(9), r.Intn(9), r.Intn(9)}
+				b.Put(bg(), batch...)
+				for i := range batch {
+					batch[i] = -1
+				}
+			}},
 			{"Get1", func(r *rng.R) { ctx, c := short(); defer c(); c1.Get(ctx) }},
 			{"Get2", func(r *rng.R) { ctx, c := short(); defer c(); c2.Get(ctx) }},
 			{"Commit1", func(r *rng.R) { c1.Commit() }},
@@ -67,6 +78,29 @@ var subjects = []subject{
 			}},
 			{"Done", func(r *rng.R) { b.Done() }},
 		}, func() { c1.Rollback(); c2.Rollback(); b.Close() }
+	}},
+	// one consumer that keeps up: the buffer is EMPTY again and again (paths that only exist for an empty buffer)
+	{"BufferSolo", func() ([]op, func()) {
+		b := new(bigbuff.Buffer)
+		b.SetCleanerConfig(bigbuff.CleanerConfig{Cleaner: bigbuff.DefaultCleaner, Cooldown: 0})
+		c, _ := b.NewConsumer()
+		return []op{
+			{"PutSpreadThenOverwrite", func(r *rng.R) {
+				batch := []interface{}{r.Intn(9), r.Intn(9), r.Intn(9)}
+				b.Put(bg(), batch...)
+				for i := range batch {
+					batch[i] = -1
+				}
+			}},
+			{"GetCommit", func(r *rng.R) {
+				ctx, cc := short()
+				defer cc()
+				if _, err := c.Get(ctx); err == nil {
+					c.Commit()
+				}
+			}},
+			{"Slice", func(r *rng.R) { b.Slice() }},
+		}, func() { c.Rollback(); b.Close() }
 	}},
 	{"Channel", func() ([]op, func()) {
 		src := make(chan int, 1024)
@@ -139,6 +173,19 @@ var subjects = []subject{
 			}},
 			{"Start", func(r *rng.R) { e.Start(r.Intn(2), func() (interface{}, error) { return 3, nil }) }},
 			{"CallAsync", func(r *rng.R) { <-e.CallAsync(r.Intn(2), func() (interface{}, error) { return 4, nil }) }},
+			// several callers pile onto a key nobody has used before (the creator of the map entry races the others for the item)
+			{"FreshKeyBurst", func(r *rng.R) {
+				key := freshKey.Add(1)
+				var wg sync.WaitGroup
+				for g := 0; g < 4; g++ {
+					wg.Add(1)
+					go func() {
+						defer wg.Done()
+						e.Call(key, func() (interface{}, error) { return 5, nil })
+					}()
+				}
+				wg.Wait()
+			}},
 		}, func() { time.Sleep(2 * time.Millisecond) }
 	}},
 	{"Notifier", func() ([]op, func()) {
